@@ -105,10 +105,10 @@ def ForWordsOk : List Word → List Char → Prop
 theorem nextOk_wordsSp (vs : List Word) (x : List Char) : NextOk (printWordsSp vs ++ ';' :: ' ' :: x) := by
   cases vs with
   | nil =>
-    exact ⟨⟨';', ' ' :: x, by simp [printWordsSp], ⟨by decide, by decide⟩⟩, by
+    exact ⟨Or.inr ⟨';', ' ' :: x, by simp [printWordsSp], ⟨by decide, by decide⟩⟩, by
       simp [printWordsSp, nextIsAngle, skipLC_cons_ne]⟩
   | cons v vs =>
-    exact ⟨⟨' ', printWord v ++ (printWordsSp vs ++ ';' :: ' ' :: x), by simp [printWordsSp],
+    exact ⟨Or.inr ⟨' ', printWord v ++ (printWordsSp vs ++ ';' :: ' ' :: x), by simp [printWordsSp],
       ⟨by decide, by decide⟩⟩, by simp [printWordsSp, nextIsAngle, skipLC_cons_ne]⟩
 
 theorem parseForValues_rt (x : List Char) :
@@ -215,7 +215,7 @@ theorem for_rt (pc : CmdParser) (name : Word) (values : Option (List Word)) (b :
 theorem stopTail_paren (x : List Char) : StopTail ('(' :: x) := by
   have hl : lexToken ('(' :: x) = some (⟨[], .op .openParen⟩, x) := by
     simpa using lexToken_lparen x false
-  refine ⟨⟨⟨'(', x, rfl, ⟨by decide, by decide⟩⟩, by simp [nextIsAngle, skipLC_cons_ne]⟩, ?_⟩
+  refine ⟨⟨Or.inr ⟨'(', x, rfl, ⟨by decide, by decide⟩⟩, by simp [nextIsAngle, skipLC_cons_ne]⟩, ?_⟩
   intro b fuel
   have hr : parseRedir ('(' :: x) = some (none, '(' :: x) := by
     unfold parseRedir
@@ -351,7 +351,7 @@ theorem patsText_cons (p : Word) (ps : List Word) (tail : List Char) :
   cases ps <;> simp [patsText, patsRest]
 
 theorem nextOk_rparen_blank (x : List Char) : NextOk (')' :: ' ' :: x) :=
-  ⟨⟨')', ' ' :: x, rfl, ⟨by decide, by decide⟩⟩, by simp [nextIsAngle, skipLC_cons_ne]⟩
+  ⟨Or.inr ⟨')', ' ' :: x, rfl, ⟨by decide, by decide⟩⟩, by simp [nextIsAngle, skipLC_cons_ne]⟩
 
 theorem nextOk_patsRest (ps : List Word) (x : List Char) : NextOk (patsRest ps (')' :: ' ' :: x)) := by
   cases ps with
